@@ -351,6 +351,14 @@ func scenarios() []hx.Scenario {
 			}
 		}
 	}
+	// two Close calls from different goroutines next to a client at work: every
+	// Close — also the one that finds the processor already being closed —
+	// returns only when no callback is running or will run
+	for _, a := range seqs {
+		if len(a) <= 2 {
+			add([][]op{a, {{'C', "", 0}}, {{'C', "", 0}}}, len(a) > 1, mc.TimerGo123, nil, "2close:")
+		}
+	}
 	// thorough: one client with three operations against a second with one
 	var seq3 [][]op
 	for _, a := range alpha {
